@@ -5,7 +5,10 @@ use std::collections::{BTreeMap, HashSet};
 use std::io::Write;
 use std::time::Instant;
 
-pub const VERIF: &str = "/verif";
+/// Root of the verification tree (evidence, replays, known findings, Python driver): $MC_ROOT, default /verif.
+pub fn verif_root() -> String {
+    std::env::var("MC_ROOT").ok().filter(|s| !s.is_empty()).unwrap_or_else(|| "/verif".to_string())
+}
 
 #[derive(Clone, Debug)]
 pub struct Violation {
@@ -113,7 +116,7 @@ pub struct KnownFinding {
 }
 
 pub fn load_known() -> Vec<KnownFinding> {
-    let p = format!("{VERIF}/known_findings.json");
+    let p = format!("{}/known_findings.json", crate::report::verif_root());
     let Ok(s) = std::fs::read_to_string(&p) else { return vec![] };
     let v: Value = serde_json::from_str(&s).expect("known_findings.json must parse");
     v["findings"]
@@ -242,8 +245,8 @@ pub fn finish(meta: &CheckMeta, mut rep: Report, t0: Instant) -> i32 {
         "violations": n_viol,
         "engine_errors": rep.engine_errors,
     });
-    let _ = std::fs::create_dir_all(format!("{VERIF}/evidence"));
-    let path = format!("{VERIF}/evidence/{}.json", meta.prop);
+    let _ = std::fs::create_dir_all(format!("{}/evidence", crate::report::verif_root()));
+    let path = format!("{}/evidence/{}.json", verif_root(), meta.prop);
     std::fs::write(&path, serde_json::to_string_pretty(&ev).unwrap()).expect("write evidence");
 
     out(&format!(
@@ -273,7 +276,7 @@ pub fn finish(meta: &CheckMeta, mut rep: Report, t0: Instant) -> i32 {
     if unknown.is_empty() {
         return 0;
     }
-    let dir = format!("{VERIF}/replays/{}", meta.prop);
+    let dir = format!("{}/replays/{}", verif_root(), meta.prop);
     let _ = std::fs::create_dir_all(&dir);
     let mut seen = HashSet::new();
     for v in unknown {
